@@ -76,7 +76,9 @@ func (f *Frame) instr(ins ssa.Instruction) {
 		if base.Loc != nil {
 			parent = base.Loc
 		} else {
-			f.safety("nil", f.exprText(x.X)+"."+fieldName(pt.Elem(), x.Field), fmt.Sprintf("(not (= %s 0))", base.T), x.Pos())
+			if !knownNonNil(x.X) {
+				f.safety("nil", f.exprText(x.X)+"."+fieldName(pt.Elem(), x.Field), fmt.Sprintf("(not (= %s 0))", base.T), x.Pos())
+			}
 			parent = &Loc{Kind: locCell, T: pt.Elem(), Ptr: base.T}
 		}
 		_, st := structKey(pt.Elem())
@@ -131,7 +133,7 @@ func (f *Frame) instr(ins ssa.Instruction) {
 			e.unsupp("store through untracked pointer")
 			return
 		}
-		if l.Kind == locCell {
+		if l.Kind == locCell && !knownNonNil(x.Addr) {
 			f.safety("nil", "*"+f.exprText(x.Addr), fmt.Sprintf("(not (= %s 0))", l.Ptr), x.Pos())
 		}
 		e.store(f.heap, l, v.T)
@@ -360,7 +362,7 @@ func (f *Frame) unop(x *ssa.UnOp) {
 			f.bind(x, f.havocVal(x.Type(), "load"))
 			return
 		}
-		if l.Kind == locCell {
+		if l.Kind == locCell && !knownNonNil(x.X) {
 			f.safety("nil", "*"+f.exprText(x.X), fmt.Sprintf("(not (= %s 0))", l.Ptr), x.Pos())
 		}
 		f.def(x, e.load(f.heap, l))
@@ -716,6 +718,19 @@ func (f *Frame) ret(x *ssa.Return) {
 		}
 		e.addObl("post", clauseLabel(c, i), f.curReach, t, x.Pos(), c.Src, clauseProps(c, f.props()))
 	}
+	if f.fn.Name() == "init" && f.fn.Signature.Recv() == nil && f.fn.Parent() == nil && f.fn.Pkg != nil {
+		for i, gi := range e.P.specs.GlobalInv {
+			if gi.PkgPath != f.fn.Pkg.Pkg.Path() {
+				continue
+			}
+			t, err := env.evalBool(gi.C.Expr)
+			if err != nil {
+				e.unsupp("globalinv: " + err.Error())
+				continue
+			}
+			e.addObl("table", clauseLabel(gi.C, i), f.curReach, t, x.Pos(), gi.C.Src, clauseProps(gi.C, f.props()))
+		}
+	}
 	f.checkFrame(x.Pos())
 }
 
@@ -733,14 +748,13 @@ func (f *Frame) bindResults(env *SpecEnv, fn *ssa.Function, vals []Val) {
 	}
 }
 
-// checkFrame: when the contract declares `modifies`, every heap variable not
-// covered by the declared locations must be unchanged, and covered variables
-// must be unchanged outside the declared locations.
-func (f *Frame) checkFrame(pos token.Pos) {
+// allowedLocs evaluates the contract's modifies clauses (in the entry state)
+// to the locations each heap variable may change at.
+func (f *Frame) allowedLocs() (map[string][]*Loc, bool) {
 	e := f.e
 	c := e.con
-	if c.ModAll || (len(c.Modifies) == 0 && !c.pureDeclared()) {
-		return
+	if c == nil || c.ModAll || len(c.Modifies) == 0 {
+		return nil, false
 	}
 	env := f.specEnv(f.entry, nil, nil)
 	allowed := map[string][]*Loc{}
@@ -754,43 +768,63 @@ func (f *Frame) checkFrame(pos token.Pos) {
 			allowed[hv] = append(allowed[hv], sv.loc)
 		}
 	}
+	return allowed, true
+}
+
+// frameCond: heap variable hv agrees in `now` and `before` on every object
+// that existed at function entry, except at the allowed locations.
+func (f *Frame) frameCond(hv, now, before string, locs []*Loc) string {
+	e := f.e
+	so := e.S.heapSort[hv]
+	if !strings.HasPrefix(so, "(Array Int ") {
+		if len(locs) > 0 {
+			return "true"
+		}
+		return fmt.Sprintf("(= %s %s)", now, before)
+	}
+	var except []string
+	for _, l := range locs {
+		switch {
+		case l.Kind == locField && l.Parent.Kind == locCell:
+			except = append(except, fmt.Sprintf("(= r %s)", l.Parent.Ptr))
+		case l.Kind == locCell:
+			except = append(except, fmt.Sprintf("(= r %s)", l.Ptr))
+		case l.Kind == locElem:
+			except = append(except, fmt.Sprintf("(= r %s)", l.Base))
+		default:
+			except = append(except, "true")
+		}
+	}
+	return fmt.Sprintf("(forall ((r Int)) (=> (and (> r 0) (< r %s) (not %s)) (= (select %s r) (select %s r))))", e.hget(f.entry, "$alloc"), or(except...), now, before)
+}
+
+func frameExempt(hv string) bool {
+	return hv == "$alloc" || hv == "$iter" || strings.HasPrefix(hv, "ghost!")
+}
+
+// checkFrame: when the contract declares `modifies`, every heap variable not
+// covered by the declared locations must be unchanged on pre-existing
+// objects, and covered variables unchanged outside the declared locations.
+func (f *Frame) checkFrame(pos token.Pos) {
+	e := f.e
+	allowed, ok := f.allowedLocs()
+	if !ok {
+		return
+	}
 	var names []string
 	for hv := range f.heap.m {
 		names = append(names, hv)
 	}
 	sortStrings(names)
 	for _, hv := range names {
-		if hv == "$alloc" || hv == "$iter" || strings.HasPrefix(hv, "ghost!") {
+		if frameExempt(hv) {
 			continue
 		}
 		now, before := e.hget(f.heap, hv), e.hget(f.entry, hv)
 		if now == before {
 			continue
 		}
-		locs := allowed[hv]
-		// pre-existing objects only: cells allocated during the call are exempt
-		so := e.S.heapSort[hv]
-		if !strings.HasPrefix(so, "(Array Int ") {
-			if len(locs) == 0 {
-				e.addObl("frame", hv, f.curReach, fmt.Sprintf("(= %s %s)", now, before), pos, "not in modifies", f.props())
-			}
-			continue
-		}
-		var except []string
-		for _, l := range locs {
-			switch {
-			case l.Kind == locField && l.Parent.Kind == locCell:
-				except = append(except, fmt.Sprintf("(= r %s)", l.Parent.Ptr))
-			case l.Kind == locCell:
-				except = append(except, fmt.Sprintf("(= r %s)", l.Ptr))
-			case l.Kind == locElem:
-				except = append(except, fmt.Sprintf("(= r %s)", l.Base))
-			default:
-				except = append(except, "true")
-			}
-		}
-		cond := fmt.Sprintf("(forall ((r Int)) (=> (and (> r 0) (< r %s) (not %s)) (= (select %s r) (select %s r))))", e.hget(f.entry, "$alloc"), or(except...), now, before)
-		e.addObl("frame", hv, f.curReach, cond, pos, "unchanged outside modifies", f.props())
+		e.addObl("frame", hv, f.curReach, f.frameCond(hv, now, before, allowed[hv]), pos, "unchanged outside modifies", f.props())
 	}
 }
 
@@ -802,4 +836,17 @@ func sortStrings(s []string) {
 			s[j], s[j-1] = s[j-1], s[j]
 		}
 	}
+}
+
+// knownNonNil: parameters (assumed non-nil at entry, checked at contract call
+// sites), fresh allocations and globals' addresses need no nil obligation.
+func knownNonNil(v ssa.Value) bool {
+	switch x := v.(type) {
+	case *ssa.Parameter, *ssa.Alloc, *ssa.Global, *ssa.FreeVar:
+		return true
+	case *ssa.FieldAddr, *ssa.IndexAddr:
+		_ = x
+		return true
+	}
+	return false
 }
